@@ -3,6 +3,8 @@ import Mathlib.Algebra.Module.Defs
 import Mathlib.Algebra.BigOperators.Group.Finset.Basic
 import Mathlib.Algebra.Field.Rat
 import Mathlib.Tactic.Abel
+import Mathlib.Algebra.Module.Prod
+import Mathlib.Algebra.BigOperators.Pi
 /-!
 # The loop machine over a ℚ-module of gradients (`div_(k)` = multiplication by `1/k`)
 -/
@@ -14,6 +16,12 @@ variable {P O G B L Sc : Type}
 def moduleOps [AddCommGroup G] [Module ℚ G] (grad : P → B → G) (clip : G → G)
     (opt : L → P → O → G → P × O) : Ops P O G B L :=
   { grad := grad, add := (· + ·), zero := 0, divk := fun k g => ((k : ℚ))⁻¹ • g, clip := clip, opt := opt }
+
+/-- two parameter groups — `self.model` (gradients in `G`) and the additional models in `self.models` (gradients in
+`H`), all in one optimiser: `training_loop` applies `div_(gradient_steps)` to `self.model.parameters()` only -/
+def moduleOps2 {H : Type} [AddCommGroup G] [Module ℚ G] [AddCommGroup H] [Module ℚ H]
+    (grad : P → B → G × H) (clip : G × H → G × H) (opt : L → P → O → G × H → P × O) : Ops P O (G × H) B L :=
+  { grad := grad, add := (· + ·), zero := 0, divk := fun k g => (((k : ℚ))⁻¹ • g.1, g.2), clip := clip, opt := opt }
 
 /-- additive gradients only (for the conservation law) -/
 def addOps [AddCommMonoid G] (grad : P → B → G) (divk : Nat → G → G) (clip : G → G)
